@@ -171,7 +171,8 @@ func runC01(tier string, seed uint64, o *Out) error {
 			}
 			unit, tsCarrier.unit = 1, 1
 		}
-		ops := genTimeOps(rng, size, c.ooo, n, nil, farOK && rng.Intn(4) == 0)
+		far := farOK && rng.Intn(4) == 0
+		ops := genTimeOps(rng, size, c.ooo, n, nil, far)
 		if i%25 == 3 {
 			ops = overflowThenQuiet(rng, size, nil)
 		}
@@ -180,6 +181,10 @@ func runC01(tier string, seed uint64, o *Out) error {
 		tag := fmt.Sprintf("event size=%d", size)
 		if tsCarrier.kind != 0 || unit != 1 {
 			tag = fmt.Sprintf("event, timestamp carried as kind %d unit %d", tsCarrier.kind, unit)
+		}
+		if !far && unit != 1 && rng.Intn(3) > 0 {
+			shiftOps(ops, epochBase(c.size))
+			tag += ", present-day epoch"
 		}
 		err := emit(c, ops, tag)
 		resetTsCarrier()
